@@ -1,4 +1,4 @@
-From Verif Require Import Common C02_Model C02_Spec C02_Comp C02_CompSpec.
+From Verif Require Import Common C02_Model C02_Spec C02_Comp C02_CompSpec C02_Win C02_WinSpec.
 Open Scope N_scope.
 
 Inductive case :=
@@ -6,11 +6,12 @@ Inductive case :=
 | CUpd (i : upd_in) (os : list (list (N * N) * N)) (reads : list N) (bad : bool)
 | CGrp (named : bool) (keys objs : N) (bad : bool)
 | CDyn (i : dyn_in) (reads : list (list view)) (bad : bool)
-| CDyn2 (i : dyn_in) (k : dcomp) (reads creads : list (list view)) (bad : bool).
+| CDyn2 (i : dyn_in) (k : dcomp) (reads creads : list (list view)) (bad : bool)
+| CWin (i : win_in) (snap : list view) (bad : bool).
     (* the same beside a second binding with static namespaces sharing the first one's shared informers (C02_Comp) *)
 
 Inductive mo := MSnap (s r : list view) | MUpd (os : list (list (N * N) * N)) (reads : list N) | MGrp (k o : N)
-  | MDyn (reads : list (list view)) | MDyn2 (reads creads : list (list view)).
+  | MDyn (reads : list (list view)) | MDyn2 (reads creads : list (list view)) | MWin (s : list view).
 
 Definition model_obs (c : case) : mo :=
   match c with
@@ -19,6 +20,7 @@ Definition model_obs (c : case) : mo :=
   | CGrp n _ _ _ => let (k, o) := grp n in MGrp k o
   | CDyn i _ _ => MDyn (dyn_views i)
   | CDyn2 i k _ _ _ => MDyn2 (dyn_views i) (comp_views i k)
+  | CWin i _ _ => MWin (w_views i)
   end.
 
 Definition views_eqb : list view -> list view -> bool := list_eqb view_eqb.
@@ -34,6 +36,7 @@ Definition agrees (c : case) : bool :=
   | CGrp n k o bad => let (mk, mo) := grp n in negb bad && N.eqb mk k && N.eqb mo o
   | CDyn i rs bad => negb bad && list_eqb views_eqb (dyn_views i) rs
   | CDyn2 i k rs crs bad => negb bad && list_eqb views_eqb (dyn_views i) rs && list_eqb views_eqb (comp_views i k) crs
+  | CWin i s bad => negb bad && views_eqb (w_views i) s
   end.
 
 Definition spec_ok (c : case) : bool :=
@@ -43,6 +46,7 @@ Definition spec_ok (c : case) : bool :=
   | CGrp _ k o bad => P_grp k o bad
   | CDyn i rs bad => P_dyn i rs bad
   | CDyn2 i k rs crs bad => P_dyn2 i k rs crs bad
+  | CWin i s bad => P_win i s bad
   end.
 
 Definition mismatches (cs : list case) : list N := indices_where (fun c => negb (agrees c)) cs.
@@ -50,7 +54,7 @@ Definition spec_violations (cs : list case) : list N := indices_where (fun c => 
 Definition trigger_F25 (cs : list case) : list N :=
   indices_where (fun c => match c with CGrp n _ _ _ => T_grp n | _ => false end) cs.
 Definition trigger_F26 (cs : list case) : list N :=
-  indices_where (fun c => match c with CSnap i _ _ _ => T_ghost i | _ => false end) cs.
+  indices_where (fun c => match c with CSnap i _ _ _ => T_ghost i | CWin i _ _ => T_wghost i | _ => false end) cs.
 (* the namespace-level ghost (reported, not yet a recorded finding: no case of it is generated) *)
 Definition trigger_F32 (cs : list case) : list N :=
   indices_where (fun c => match c with CDyn i _ _ => T_nsghost i | CDyn2 i _ _ _ _ => T_nsghost i | _ => false end) cs.
